@@ -1,4 +1,5 @@
 import time  # noqa: F401
+from threading import Lock
 from rpyc.lib import Timeout
 from rpyc.lib.compat import TimeoutError as AsyncResultTimeout
 
@@ -8,7 +9,7 @@ class AsyncResult(object):
     will eventually have a result. Use the :attr:`value` property to access the
     result (which will block if the result has not yet arrived).
     """
-    __slots__ = ["_conn", "_is_ready", "_is_exc", "_callbacks", "_obj", "_ttl"]
+    __slots__ = ["_conn", "_is_ready", "_is_exc", "_callbacks", "_obj", "_ttl", "_lock"]
 
     def __init__(self, conn):
         self._conn = conn
@@ -17,6 +18,9 @@ class AsyncResult(object):
         self._obj = None
         self._callbacks = []
         self._ttl = Timeout(None)
+        # guards "is the result ready?" together with the callback list: the reply may be published by another
+        # thread (a BgServingThread) than the one registering a callback. Never held while a callback runs.
+        self._lock = Lock()
 
     def __repr__(self):
         if self._is_ready:
@@ -32,14 +36,18 @@ class AsyncResult(object):
     def __call__(self, is_exc, obj):
         if self.expired:
             return
-        self._is_exc = is_exc
-        self._obj = obj
-        self._is_ready = True
+        # publishing the value and taking the callbacks registered so far is one step with respect to
+        # add_callback: a callback registered from another thread either is in this list or finds the
+        # result ready and runs at once - it is never appended to a list nobody will look at again
+        with self._lock:
+            self._is_exc = is_exc
+            self._obj = obj
+            self._is_ready = True
+            callbacks = self._callbacks[:]
+            del self._callbacks[:]
         # every registered callback runs exactly once, in registration order: one failing callback
         # does not stop the others (as with concurrent.futures); the first error is re-raised once
         # all of them have run, so it still surfaces in the thread that is serving the connection
-        callbacks = self._callbacks[:]
-        del self._callbacks[:]
         first_error = None
         for cb in callbacks:
             try:
@@ -67,10 +75,11 @@ class AsyncResult(object):
 
         :param func: the callback function to add
         """
-        if self._is_ready:
-            func(self)
-        else:
-            self._callbacks.append(func)
+        with self._lock:
+            if not self._is_ready:
+                self._callbacks.append(func)
+                return
+        func(self)
 
     def set_expiry(self, timeout):
         """Sets the expiry time (in seconds, relative to now) or ``None`` for
